@@ -457,6 +457,13 @@ func (p *untypedParamBinder) tryUnmarshaler(target reflect.Value, defaultValue i
 			}
 			data = str
 		}
+		if target.Kind() == reflect.Slice && target.Type().Elem().Kind() == reflect.Uint8 {
+			// format byte: the standard base64 alphabet first, the type's own (URL-safe) decoding as fallback
+			if b, err := base64.StdEncoding.DecodeString(data); err == nil {
+				target.SetBytes(b)
+				return true, nil
+			}
+		}
 		value := reflect.New(target.Type())
 		if err := value.Interface().(encoding.TextUnmarshaler).UnmarshalText([]byte(data)); err != nil {
 			return true, err
